@@ -2,11 +2,16 @@
 
 PROP = {'technique': 'Lean closed forms per label shape in the panic monad, induction over the label list, iff-characterisation against a declarative grammar for every idna.ToASCII; regenerated limits; differential tie',
  'module': 'GolibsVerif.Theorems.C03',
+ 'modules': ['GolibsVerif.Theorems.C03', 'GolibsVerif.Theorems.C03Idna'],
  'namespace': 'GolibsVerif.C03',
  'rule': "names built from a label grammar (lengths 0,1,62,63,64; totals 252..255; '-', '_', digits at first/inner/last; all-digit TLD; "
          'xn--; IDN; invalid UTF-8; empty labels; trailing/leading dots) and single labels; non-trivial = idna.ToASCII succeeds and the '
-         'length gate passes, so that a label rule decides; distinct = distinct case line',
- 'trusted': ['idna.ToASCII is a parameter of the model (its answer for the input travels with each case as an oracle field)',
+         'length gate passes, so that a label rule decides; distinct = distinct case line; plus std.idna: the Lean model of idna.ToASCII '
+         'against the real function (all token sequences of length 0..3 / 0..5 over dots and the label kinds, random names with '
+         'valid/invalid/mixed-case A-labels, non-ASCII and invalid-UTF-8 labels, very long labels; punycode values as an oracle table)',
+ 'trusted': ['idna.ToASCII is a parameter of the model (its answer for the input travels with each case as an oracle field); '
+             'Theorems/C03Idna.lean instantiates it with the model Go/Idna.lean of idna.ToASCII (op std.idna), in which only the '
+             'punycode functions encode/decode stay parameters (oracle table)',
              'constants MaxDomainLabelLen / MaxDomainNameLen / MaxServiceLabelLen are regenerated from netutil on every run '
              '(Gen/Consts.lean)',
              "strings.Cut loop modelled as a fold over the '.'-split (lemma splitOn_cut)"],
